@@ -52,95 +52,118 @@ func serviceEntry() config.Config {
 
 var svcPortOf = map[uint32]int{portHTTP: int(svcHTTP), portTCP: int(portTCP), portAuto: 7000}
 
-// observeListener runs the full path for one case.
-func observeListener(c caseT) (o *observation, err error) {
-	o = &observation{Sidecar: map[uint32]string{}, ClientScoped: map[uint32]bool{}, Listener: map[uint32]string{}}
+// observeOn runs the full path on an environment whose config store holds the case.
+func observeOn(t test.Failer, cg *core.ConfigGenTest) *observation {
+	o := &observation{Sidecar: map[uint32]string{}, ClientScoped: map[uint32]bool{}, Listener: map[uint32]string{}}
+	server := cg.SetupProxy(&model.Proxy{
+		ID: "srv-1." + wlNS, ConfigNamespace: wlNS, IPAddresses: []string{serverIP}, Labels: wlLabels,
+		Metadata: &model.NodeMetadata{Namespace: wlNS, Labels: wlLabels},
+	})
+	client := cg.SetupProxy(&model.Proxy{
+		ID: "cli-1." + clientNS, ConfigNamespace: clientNS, IPAddresses: []string{clientIP},
+		Metadata: &model.NodeMetadata{Namespace: clientNS},
+	})
+	push := cg.PushContext()
+	if len(server.ServiceTargets) != 3 {
+		t.Fatalf("server proxy has %d service targets, want 3", len(server.ServiceTargets))
+	}
+
+	// (2) the inbound listener
+	var vi *listener.Listener
+	for _, l := range cg.Listeners(server) {
+		if l.Name == model.VirtualInboundListenerName {
+			vi = l
+		}
+	}
+	if vi == nil {
+		t.Fatal("no virtualInbound listener")
+	}
+	for _, q := range evalPorts {
+		o.Listener[q] = classify(vi, q)
+	}
+
+	// (1) the server-side resolver through the proxy
+	applier := authn.NewPolicyApplier(push, server, nil)
+	for _, q := range evalPorts {
+		o.Sidecar[q] = applier.GetMutualTLSModeForPort(q).String()
+	}
+
+	// (3) the client: real endpoints of the service, the client proxy's scoped policy view
+	svc := push.ServiceForHostname(client, svcHost)
+	if svc == nil {
+		t.Fatal("client does not see the service")
+	}
+	view := client.SidecarScope.AuthnPolicies
+	for _, q := range servicePorts {
+		eps := push.ServiceEndpointsByPort(svc, svcPortOf[q], nil)
+		if len(eps) != 1 || eps[0].EndpointPort != q {
+			t.Fatalf("service port %d: endpoints %v", svcPortOf[q], eps)
+		}
+		o.ClientScoped[q] = endpoints.VerifCheckMtlsEnabled(push, view, svcPortOf[q], nil, "", eps[0], false)
+	}
+	p, _ := svc.Ports.GetByPort(int(portTCP))
+	o.NsViewScoped = push.BestEffortInferServiceMTLSMode(view, nil, svc, p).String()
+	return o
+}
+
+// observeFresh builds a new istio environment for the case (about 20 ms and ~1 MB that is only
+// released at process exit: used for replays and for the periodic self-check of the shared one).
+func observeFresh(c caseT) (o *observation, err error) {
 	err = test.Wrap(func(t test.Failer) {
 		cfgs := []config.Config{serviceEntry()}
 		for _, p := range c.Pols {
 			cfgs = append(cfgs, p.asConfig())
 		}
-		cg := core.NewConfigGenTest(t, core.TestOptions{Configs: cfgs})
-		server := cg.SetupProxy(&model.Proxy{
-			ID: "srv-1." + wlNS, ConfigNamespace: wlNS, IPAddresses: []string{serverIP}, Labels: wlLabels,
-			Metadata: &model.NodeMetadata{Namespace: wlNS, Labels: wlLabels},
-		})
-		client := cg.SetupProxy(&model.Proxy{
-			ID: "cli-1." + clientNS, ConfigNamespace: clientNS, IPAddresses: []string{clientIP},
-			Metadata: &model.NodeMetadata{Namespace: clientNS},
-		})
-		push := cg.PushContext()
-		if len(server.ServiceTargets) != 3 {
-			t.Fatalf("server proxy has %d service targets, want 3", len(server.ServiceTargets))
-		}
-
-		// (2) the inbound listener
-		var vi *listener.Listener
-		for _, l := range cg.Listeners(server) {
-			if l.Name == model.VirtualInboundListenerName {
-				vi = l
-			}
-		}
-		if vi == nil {
-			t.Fatal("no virtualInbound listener")
-		}
-		for _, q := range evalPorts {
-			o.Listener[q] = classify(vi, q)
-		}
-
-		// (1) the server-side resolver through the proxy
-		applier := authn.NewPolicyApplier(push, server, nil)
-		for _, q := range evalPorts {
-			o.Sidecar[q] = applier.GetMutualTLSModeForPort(q).String()
-		}
-
-		// (3) the client: real endpoints of the service, the client proxy's scoped policy view
-		svc := push.ServiceForHostname(client, svcHost)
-		if svc == nil {
-			t.Fatal("client does not see the service")
-		}
-		view := client.SidecarScope.AuthnPolicies
-		for _, q := range servicePorts {
-			eps := push.ServiceEndpointsByPort(svc, svcPortOf[q], nil)
-			if len(eps) != 1 || eps[0].EndpointPort != q {
-				t.Fatalf("service port %d: endpoints %v", svcPortOf[q], eps)
-			}
-			o.ClientScoped[q] = endpoints.VerifCheckMtlsEnabled(push, view, svcPortOf[q], nil, "", eps[0], false)
-		}
-		p, _ := svc.Ports.GetByPort(int(portTCP))
-		o.NsViewScoped = push.BestEffortInferServiceMTLSMode(view, nil, svc, p).String()
+		o = observeOn(t, core.NewConfigGenTest(t, core.TestOptions{Configs: cfgs}))
 	})
 	return o, err
 }
 
-// inQuickB defines the sub-product of the space that part b covers in the quick tier (the full
-// space costs ~15 ms per case): canonical spelling; every first-policy combination without a
-// second policy; and every second policy against three representative workload policies.
-func inQuickB(sp *space, ci caseInfo) bool {
-	if ci.form != formCanonical {
-		return false
+// sharedEnv is one istio environment whose PeerAuthentication objects are swapped per case; every
+// case gets a push context built from scratch from the store (what istiod does on a config change).
+type sharedEnv struct {
+	t   *testing.T
+	cg  *core.ConfigGenTest
+	cur []pol
+}
+
+func newSharedEnv(t *testing.T) *sharedEnv {
+	return &sharedEnv{t: t, cg: core.NewConfigGenTest(t, core.TestOptions{Configs: []config.Config{serviceEntry()}})}
+}
+
+func (s *sharedEnv) observe(c caseT) *observation {
+	st := s.cg.Store()
+	for _, p := range s.cur {
+		if err := st.Delete(gvk.PeerAuthentication, p.Name, p.Namespace, nil); err != nil {
+			s.t.Fatalf("delete %s: %v", p, err)
+		}
 	}
-	if ci.block == 'B' {
-		// two port-level entries: only with mesh in {none, STRICT} and namespace in {none, DISABLE}
-		return (ci.mesh == 0 || ci.mesh == 4) && (ci.ns == 0 || ci.ns == 2)
+	s.cur = nil
+	for _, p := range c.Pols {
+		if _, err := st.Create(p.asConfig()); err != nil {
+			s.t.Fatalf("create %s: %v", p, err)
+		}
+		s.cur = append(s.cur, p)
 	}
-	if ci.second == 0 {
-		return true
+	if got := len(st.List(gvk.PeerAuthentication, "")); got != len(c.Pols) {
+		s.t.Fatalf("store holds %d PeerAuthentications, want %d", got, len(c.Pols))
 	}
-	if len(ci.wlPol) == 0 {
-		return true
-	}
-	w := ci.wlPol[0]
-	if w.Sel != selMatch || len(w.Ports) != 1 {
-		return false
-	}
-	return (w.Mode == mUnset && w.Ports[0] == portSetting{portHTTP, mStrict}) || (w.Mode == mStrict && w.Ports[0] == portSetting{portNoSvc, mDisable})
+	pc := model.NewPushContext()
+	pc.InitContext(s.cg.Env(), nil, nil)
+	s.cg.Env().SetPushContext(pc)
+	return observeOn(s.t, s.cg)
+}
+
+// inQuickB defines the sub-product of the space that part b covers in the quick tier: every policy
+// set in canonical spelling (the spelling variants are added in the thorough tier).
+func inQuickB(ci caseInfo) bool {
+	return ci.form == formCanonical
 }
 
 func TestC10b(t *testing.T) {
 	env := engine.GetEnv()
 	res := engine.NewResult("C10", "b-listeners")
-	res.Rule = "same case space as part a (quick: canonical spelling, all first-policy combinations, every second policy against {no workload policy, UNSET+8080:STRICT, STRICT+5555:DISABLE}, two-entry port maps under mesh{none,STRICT} x namespace{none,DISABLE}; thorough: everything); per case one istio environment, the workload's real virtualInbound listener judged per destination port by an Envoy filter-chain interpreter over 9 wire formats (plaintext tcp/http1/h2c, sidecar mTLS tcp/legacy/http1/h2, foreign TLS with/without ALPN), plus server resolver through the proxy and client decision through the client proxy's scoped view; non-trivial = as in part a"
+	res.Rule = "same case space as part a (quick: every policy set in canonical spelling; thorough: also the spelling variants); per case the PeerAuthentication objects of a ConfigGenTest environment are replaced and a push context is built from scratch (cross-checked against a freshly built environment every 251 cases), the workload's real virtualInbound listener judged per destination port by an Envoy filter-chain interpreter over 9 wire formats (plaintext tcp/http1/h2c, sidecar mTLS tcp/legacy/http1/h2, foreign TLS with/without ALPN), plus server resolver through the proxy and client decision through the client proxy's scoped view; non-trivial = as in part a"
 	defer res.Write(t, env)
 
 	if env.Replay != "" {
@@ -148,11 +171,11 @@ func TestC10b(t *testing.T) {
 		if err := engine.ReadReplay(env.Replay, &rp); err != nil {
 			t.Fatal(err)
 		}
-		o, err := observeListener(rp.Case)
+		o, err := observeFresh(rp.Case)
 		if err != nil {
 			t.Fatal(err)
 		}
-		e := report(res, rp.Case, rp.Canonical, o, mustObserveListener(t))
+		e := report(res, rp.Case, rp.Canonical, o, mustObserveFresh(t))
 		res.Evaluations++
 		ob, _ := json.MarshalIndent(o, "", " ")
 		t.Logf("case %s\nexpected %s\nobserved %s", rp.Case, expectString(e), ob)
@@ -160,12 +183,13 @@ func TestC10b(t *testing.T) {
 	}
 
 	sp := newSpace()
+	shared := newSharedEnv(t)
 	res.Bounds["ordinals_total"] = sp.sizeA + sp.sizeB
 	res.Bounds["ports_evaluated"] = evalPorts
 	res.Bounds["wire_formats"] = len(wires)
 	var n int64
 	sp.each(func(ord int64, ci caseInfo, c caseT) bool {
-		if !env.Thorough() && !inQuickB(sp, ci) {
+		if !env.Thorough() && !inQuickB(ci) {
 			return true
 		}
 		n++
@@ -177,20 +201,22 @@ func TestC10b(t *testing.T) {
 			return false
 		}
 		res.Evaluations++
-		o, err := observeListener(c)
-		if err != nil {
-			t.Fatalf("case %s: %v", c, err)
-		}
-		if res.Evaluations%499 == 0 {
-			o2, _ := observeListener(c)
+		o := shared.observe(c)
+		if res.Evaluations%251 == 1 {
+			// self-check of the shared environment: a freshly built one must give the same observation
+			o2, err := observeFresh(c)
+			if err != nil {
+				t.Fatalf("case %s: %v", c, err)
+			}
 			a, _ := json.Marshal(o)
 			b, _ := json.Marshal(o2)
 			if string(a) != string(b) {
-				res.Infra = "nondeterministic observation for " + c.String()
+				res.Infra = fmt.Sprintf("shared and fresh environment disagree for %s: %s vs %s", c, a, b)
 				return false
 			}
+			res.Count("fresh_environment_cross_checks", 1)
 		}
-		e := report(res, c, sp.canonical(ci), o, mustObserveListener(t))
+		e := report(res, c, sp.canonical(ci), o, shared.observe)
 		out := ""
 		for _, q := range evalPorts {
 			out += fmt.Sprintf("%d=%s ", q, o.Listener[q])
@@ -199,7 +225,7 @@ func TestC10b(t *testing.T) {
 		if nontrivial(c, e) {
 			res.NontrivialCase(fmt.Sprint(ord))
 		}
-		if ord%50021 == 0 {
+		if n%40009 == 1 {
 			res.Sample(map[string]any{"case": c.String(), "expected": expectString(e), "observed": o})
 		}
 		return true
@@ -207,9 +233,9 @@ func TestC10b(t *testing.T) {
 	res.Bounds["cases_in_tier"] = n
 }
 
-func mustObserveListener(t *testing.T) func(caseT) *observation {
+func mustObserveFresh(t *testing.T) func(caseT) *observation {
 	return func(c caseT) *observation {
-		o, err := observeListener(c)
+		o, err := observeFresh(c)
 		if err != nil {
 			t.Fatalf("case %s: %v", c, err)
 		}
